@@ -70,9 +70,13 @@ def generate(ctx):
                      "B": rng.randint(1, 3), "T": rng.randint(6, 10), "signs": sg, "trace_mode": rng.choice(["cumulative", "nearest"]),
                      "delay": delay, "delayed": bool(delay) and name in tr.HAS_DELAYED_FLAG and rng.random() < 0.5,
                      "reduction": rng.choice(["sum", "mean", "amax"]), "reward": rng.choice(["scalar+", "scalar-", "tensor"]),
-                     "scale": 1.0, "p": rng.choice([0.4, 0.7]), "seed": rng.randrange(1 << 30), "spy_bounds": rng.random() < 0.5,
+                     "scale": rng.choice([1.0, 1.0, 0.5, -0.5, -2.0]), "p": rng.choice([0.4, 0.7]), "seed": rng.randrange(1 << 30), "spy_bounds": rng.random() < 0.5,
                      "per_cell": rng.random() < 0.5, "lr_a3": rng.choice([0.3, -0.3, 1.5, -1.5]), "lr_b3": rng.choice([0.2, -0.2, 1.2, -1.2]),
                      "tensor_kwargs": rng.choice([[], ["post_learning_rate"], ["post_time_constant", "pre_learning_rate"]])}
+                if name in tr.THREE_FACTOR:
+                    # every reward form meets every sign of the scale for every trainer and sign mode, not left to the draw
+                    d["reward"] = ["tensor", "scalar+", "scalar-", "tensor"][(sg + rep) % 4]
+                    d["scale"] = [1.0, -0.5, 0.5, -2.0][(sg + 2 * rep) % 4]
                 if d["reward"] == "tensor" and name in tr.THREE_FACTOR:
                     d["reduction"] = "sum"
                 if "Kernel" in name and rng.random() < 0.5:
@@ -185,12 +189,14 @@ def _routing(ctx, desc, pre, post, rewards):
         seen["u"] = seen["l"] = None
         _REC["parts"][:] = []
         try:
-            pos, neg, dparam = h.step_apply(pre[t], post[t], reward, 1.0)
+            pos, neg, dparam = h.step_apply(pre[t], post[t], reward, desc.get("scale", 1.0))
         except Exception as e:  # noqa: BLE001
             return ctx.violation(ctx.exc_signature(e, f"step.{name}.{desc['conn']}"), f"{type(e).__name__}: {str(e)[:200]}", rdesc)
-        epos, eneg = orc.step(pre[t], post[t], delays, reward, 1.0)
+        epos, eneg = orc.step(pre[t], post[t], delays, reward, desc.get("scale", 1.0))
         ctx.case(f"routing/{name}/{desc['conn']}/signs{desc['signs']}/{red}/{desc['reward'] if name in tr.THREE_FACTOR else '-'}")
         ctx.count("routing_steps_checked")
+        if name in tr.THREE_FACTOR and desc.get("scale", 1.0) < 0:
+            ctx.count("three_factor_steps_with_negative_scale." + ("tensor_signal" if desc["reward"] == "tensor" else "scalar_signal"))
         for side, got, exp in (("u", seen["u"], epos), ("l", seen["l"], eneg)):
             label = "upper_bound_function" if side == "u" else "lower_bound_function"
             if got is None:
